@@ -5,6 +5,7 @@ import Depccg.OpsXml
 import Depccg.Print.More
 import Depccg.Print.Html
 import Depccg.Print.Json
+import Depccg.Print.XmlText
 import Depccg.GlueTree
 import Depccg.GlueRun
 import Depccg.Read.Deriv
@@ -74,6 +75,14 @@ def dispatch (op : String) (ts : List String) : Option String :=
   | "json_text" => some (match pList (pList pScoredK) ts with
       | some (b, []) => "ok " ++ encStr (jsonText b)
       | _ => "bad-op")
+  | "xml_text" => some (match OpsXml.pBatch ts with
+      | some (b, []) => encExcept encStr (Xml.xmlText b)
+      | _ => "bad-op")
+  | "jigg_text" => some (match ts with
+      | u :: rest => (match pList (pList pScoredK) rest with
+        | some (b, []) => encExcept encStr (Xml.jiggText (u == "1") b)
+        | _ => "bad-op")
+      | [] => "bad-op")
   | "json_read" => some (match pStr ts with
       | some (s, []) => (match Read.readJsonOutput s with
         | some sents => "ok " ++ toString sents.length ++ String.join (sents.map fun (n, es) =>
